@@ -130,7 +130,12 @@ def hasSub (needle : Bytes) : Bytes → Bool
   | [] => needle.isEmpty
   | b :: rest => needle.isPrefixOf (b :: rest) || hasSub needle rest
 
-/-- the local `isJSON` of both handlers: an Accept header value contains "application/json" -/
+/-- the local `isJSON` of both handlers (service.go `ServiceHandler` and child.go `runChildRequest`, the loop
+`for name, values := range headers { … for _, value := range values { if EqualFold(name, "Accept") &&
+Contains(value, "application/json") … } }`): SOME value of a non-sensitive header named Accept contains
+"application/json".  A header sent as several lines is one map entry with several values, and EVERY value is
+looked at, not only the first line (`http.Header.Get`); the match is a case-sensitive substring test, so q-values
+and comma-separated lists on one line do not matter. -/
 def acceptsJSONHeader (hs : SMap (List Bytes)) : Bool :=
   hs.any fun h => nonSensitive h.1 && (h.1.map lower == str "accept") && h.2.any (hasSub (str "application/json"))
 
